@@ -91,6 +91,11 @@ func runBounded(id, tier, repo, verif string, seed int) []boundedResult {
 			}
 			if err := json.Unmarshal([]byte(m[1]), &s); err == nil {
 				r.Evaluations, r.Distinct, r.Rule, r.Exhaustive, r.Bound, r.Samples = s.Evaluations, s.Distinct, s.Rule, s.Exhaustive, s.Bound, s.Samples
+			} else {
+				r.Failures = append(r.Failures, boundedFailure{"harness", "bounded harness summary is not valid JSON (" + err.Error() + "): " + truncate(m[1], 600)})
+			}
+			if r.Evaluations == 0 {
+				r.Failures = append(r.Failures, boundedFailure{"harness", "bounded harness reports zero evaluations (vacuous run)"})
 			}
 		} else {
 			// the harness did not complete: that is a failure of the check itself
